@@ -60,7 +60,7 @@ def gen_shape(r, tid, kinds=('struct', 'enum'), maxf=4, ftgen=None, min_variants
     ftgen = ftgen or (lambda r, i: ft_A(0 if r.random() < same_k else i))
     def fields(n, named):
         names = r.sample(FIELD_NAMES, n) if named else [None] * n
-        if named and n >= 2 and r.random() < 0.25:
+        if named and n >= 2 and r.random() < (0.6 if HOSTILE[0] else 0.25):
             # a sibling that differs by a leading underscore only (prefixed pattern bindings must stay apart)
             i, j = r.sample(range(n), 2)
             base = names[i][2:] if names[i].startswith('r#') else names[i]
@@ -299,8 +299,15 @@ def module(t, body, nvals):
     if NOISE[0] is not None and not getattr(t, '_noised', False):
         t._noised = True
         add_noise(t, NOISE[0][1], NOISE[0][0])
+    hostile_impl = ''
+    if HOSTILE[0] and t.kind in ('struct', 'enum') and not getattr(t, 'generic', None) and not getattr(t, 'raw_decl', None) and 'impl T {' not in body:
+        # inherent items named like the trait methods: generated code must call the traits' functions by path
+        hostile_impl = ('\n    impl T { pub fn eq(&self, _: &Self) -> u8 { 0 } pub fn ne(&self, _: &Self) -> u8 { 0 } pub fn cmp(&self, _: &Self) -> u8 { 0 }'
+                        ' pub fn partial_cmp(&self, _: &Self) -> u8 { 0 } pub fn hash(&self) -> u8 { 0 } pub fn fmt(&self) -> u8 { 0 } pub fn clone(&self) -> u8 { 0 }'
+                        ' pub fn clone_from(&mut self, _: &Self) {} pub fn default() -> u8 { 0 } pub fn deref(&self) -> u8 { 0 } pub fn deref_mut(&mut self) -> u8 { 0 }'
+                        ' pub fn into(self) -> u8 { 0 } }')
     ty = ('pub mod ty {\n    #![deny(warnings)]\n    #![allow(dead_code, unused_imports, non_snake_case)]\n    use crate::support::{A, B, C, N, Nt, Fl, Off, Good, Bad, Half, g_clone, g_default, g_into, m_eq, m_eqv, m_cmp, m_pcmp, m_hash, m_fmt, m_clone, m_clone_c, m_into, m_same, Mk, g_eq, g_cmp, g_pcmp, g_hash, g_fmt};\n'
-          '    use educe::Educe;\n%s%s\n}\npub use ty::T;' % (HOSTILE_ITEMS if HOSTILE[0] else '', type_decl(t)))
+          '    use educe::Educe;\n%s%s%s\n}\npub use ty::T;' % (HOSTILE_ITEMS if HOSTILE[0] else '', type_decl(t), hostile_impl))
     return ('// %s\n#![allow(dead_code, unused_variables, unused_mut, unused_imports, non_shorthand_field_patterns, clippy::all)]\n'
             'use crate::support::*;\nuse core::cmp::Ordering;\n%s\n%s\n' % (t.id, ty, body))
 
